@@ -1776,16 +1776,18 @@ impl<'ctx> ByteCompiler<'ctx> {
                 match statement {
                     StatementListItem::Statement(statement) => match statement.as_ref() {
                         Statement::Break(_) | Statement::Continue(_) => break,
-                        Statement::Empty | Statement::Var(_) => {}
-                        Statement::Block(block) if !returns_value(block) => {}
+                        statement if !returns_value(statement) => {}
                         _ => use_expr_index = i,
                     },
                     StatementListItem::Declaration(_) => {}
                 }
             }
 
+            // Inside a loop, `switch` or labelled statement a nested `break` or `continue` can
+            // leave the list after any statement, so every statement keeps its value.
+            let every = self.jump_control_info_has_use_expr();
             for (i, item) in list.statements().iter().enumerate() {
-                self.compile_stmt_list_item(item, i == use_expr_index, block);
+                self.compile_stmt_list_item(item, every || i == use_expr_index, block);
             }
         } else {
             for item in list.statements() {
